@@ -11,6 +11,7 @@
   (engine `damage`), not by a theorem.
 -/
 import DiskfsModel.Model.Robust
+import DiskfsModel.Generated.Robust
 namespace Diskfs.Robust.C18
 
 /-- as found: a chain entry that points at itself is followed forever -/
@@ -147,6 +148,15 @@ theorem fat_read_no_div_zero (bps spc re ds : Nat) : fatReadDivs true bps spc re
 
 /-- as found: sectorsPerCluster = 0 panics -/
 theorem cex_fat_read_div_zero : fatReadDivs false 512 0 224 2847 = none := by decide
+
+/-- pinned facts, regenerated from the source on every run: getClusterList carries a length bound
+    against MaxCluster (so `walkLoopB`, not `walkLoop`, is the mirror of the current code and
+    `walkB_terminates` applies), and each of fat12/fat16/fat32 `Read` calls `CheckGeometry`
+    before its first division (so `fat_read_no_div_zero` applies). -/
+theorem facts_agree_walk_bounded : Generated.Robust.fatWalkBounded = true := by decide
+theorem facts_agree_geometry_checked :
+    Generated.Robust.fat12ReadChecked = true ∧ Generated.Robust.fat16ReadChecked = true ∧
+    Generated.Robust.fat32ReadChecked = true := by decide
 
 /-! non-vacuity: a concrete looping table and a concrete good chain -/
 example : walkLoop ⟨fun c => if c = 2 then 2 else 0, fun n => n ≥ 0xFF8, 100⟩ 50 2 [] = .diverge := by decide
